@@ -155,6 +155,7 @@ func (c *Conn) close() error {
 	}
 	runtime.SetFinalizer(c, nil)
 	close(c.closed)
+	vhook(4, c, nil, 0, 0)
 
 	// Have to close after c.closed is closed to ensure any goroutine that wakes up
 	// from the connection being closed also sees that c.closed is closed and returns
@@ -168,6 +169,8 @@ func (c *Conn) close() error {
 
 func (c *Conn) timeoutLoop() {
 	defer close(c.timeoutLoopDone)
+	vhook(7, c, nil, 0, 0)
+	defer vhook(8, c, nil, 0, 0)
 
 	readCtx := context.Background()
 	writeCtx := context.Background()
@@ -253,11 +256,13 @@ func newMu(c *Conn) *mu {
 
 func (m *mu) forceLock() {
 	m.ch <- struct{}{}
+	vhook(3, nil, m, 0, 0)
 }
 
 func (m *mu) tryLock() bool {
 	select {
 	case m.ch <- struct{}{}:
+		vhook(1, nil, m, 0, 0)
 		return true
 	default:
 		return false
@@ -281,11 +286,13 @@ func (m *mu) lock(ctx context.Context) error {
 			return net.ErrClosed
 		default:
 		}
+		vhook(1, nil, m, 0, 0)
 		return nil
 	}
 }
 
 func (m *mu) unlock() {
+	vhook(2, nil, m, 0, 0)
 	select {
 	case <-m.ch:
 	default:
